@@ -548,6 +548,50 @@ def targeted_worker(job):
     return st
 
 
+def memcheck_worker(job):
+    """Totality vectors that exercise the native regex engine and the hand-written parsers, replayed under valgrind memcheck.
+    A crash/abort is a violation; memcheck reports without a crash are advisory."""
+    k, n, seed = job
+    st = Stats()
+    rng = common.rng_for(seed, "C11m", k)
+    base = common.mkscratch("C11m%d" % k)
+    os.chmod(base, 0o755)
+    sb = os.path.join(base, "sb")
+    wd = os.path.join(base, "w")
+    os.makedirs(wd)
+    os.makedirs(sb)
+    try:
+        build_fuzz_tree(sb)
+        lines = []
+        pat_prims = ["-name", "-iname", "-path", "-ipath", "-lname", "-regex", "-iregex", "-printf"]
+        tries = 0
+        while len(lines) < n and tries < n * 40:
+            tries += 1
+            toks = rand_vector(rng)
+            if not any(t in pat_prims for t in toks) or "-delete" in toks or "rm" in toks:
+                continue
+            if toks and not (toks[0].startswith("-") or toks[0] in ("(", "!")):
+                toks = ["-true"] + toks
+            args = ["find", rng.choice(["r", "r", "r/b"])] + toks
+            lines.append(common.find_case("v%d" % len(lines), args))
+        res, rep = common.run_vh_memcheck("find", lines, wd, cwd=sb, extra=["--uid", str(NOBODY)], env=common.clean_env({"VERIF_REC_LOG": os.path.join(wd, "rec.log")}))
+        st.inc("memcheck_vectors", rep["answered"])
+        st.inc("memcheck_error_reports", rep["errors"])
+        for cid, f in res.items():
+            if f and f[0] == "PANIC":
+                st.violate("panic", None, {"under": "memcheck", "panic": common.unhx(f[1]).decode("utf-8", "replace")}, {"case": cid})
+        if rep["timed_out"]:
+            st.notes.append("memcheck run timed out (inconclusive for this shard)")
+        elif rep["crashed"]:
+            st.violate("memcheck-crash", None, {"rc": rep["rc"], "answered": rep["answered"], "cases": rep["cases"], "log": rep["first"][:600]},
+                       {"cases": lines[rep["answered"]:rep["answered"] + 2]})
+        if rep["errors"]:
+            st.notes.append("memcheck reported %d errors (advisory): %r" % (rep["errors"], rep["kinds"]))
+    finally:
+        common.force_rmtree(base)
+    return st
+
+
 def run(ctx):
     ctx.rule = ("(a) one of 14 corruptions (binary operator first/last/before ')'/after '(', adjacent operators, '!' before ')', unbalanced or empty "
                 "parentheses, operand missing, unknown primary, invalid operand for -type -xtype -size numeric tests -perm -regextype -user -group "
@@ -564,6 +608,13 @@ def run(ctx):
     nb = ctx.scale(6400, 1000000)
     ctx.pmap(total_worker, [(k, nb // nw, ctx.seed) for k in range(nw)])
     ctx.pmap(targeted_worker, [(k, ctx.seed) for k in range(nw)])
+    if common.memcheck_available():
+        nm = ctx.scale(160, 20000)
+        ctx.pmap(memcheck_worker, [(k, max(4, nm // nw), ctx.seed) for k in range(nw)])
+        ctx.require("memcheck_vectors", 20)
+        ctx.assumptions.append("valgrind memcheck on the release harness for pattern-bearing vectors: a crash is a violation, reports without a crash are advisory")
+    else:
+        ctx.stats.notes.append("valgrind not available: memcheck replay skipped")
     for c in CORRUPTIONS:
         ctx.require("corruption:" + c, 20)
     for key in ("targeted_runs", "binary_runs", "non_utf8_vectors", "vectors_with_removal_action", "exit_status:0", "exit_status:nonzero"):
